@@ -226,9 +226,11 @@ example : runTrace init [.connCall, .implStart, .implOk 1, .status .connected, .
 example : runTrace init [.connCall, .implStart, .implOk 1, .status .connected, .connCancel, .connCall, .abandon 1, .implStart] = none := by
   decide +kernel
 
--- What the model does NOT promise (the known findings `C13/connected-without-receiver/*`): it admits the history in which the application
--- cancels its own connect() after CONNECTED was reported and before the receive task was started — the state is then CONNECTED, nobody
--- reads, no reconnect task is alive, and nothing in the LTS forces a further step.  (Recovery is a liveness claim; the theorems above say
+-- What the model does NOT promise: it admits the history in which the application cancels its own connect() after CONNECTED was reported
+-- and before the receive task was started WITHOUT the call giving the link up (`connGiveUp`) — the state is then CONNECTED, nobody
+-- reads, no reconnect task is alive, and nothing in the LTS forces a further step.  The real client did exactly that until the last
+-- repair (findings `C13/connected-without-receiver/*`); since then its traces carry `connGiveUp c, writerClose c, status DISCONNECTED`
+-- before `connCancel`, and the monitor `connected-without-receiver` watches for the old behaviour.  (Recovery is a liveness claim; the theorems above say
 -- which recovery runs exist and which steps are impossible, the monitors `not-recovered` / `connected-without-receiver` and the replays
 -- in `tools/repros/C13_known_*.py` exhibit the histories in which the real client stays there.)
 example : (runTrace init [.connCall, .implStart, .implOk 1, .status .connected, .connReturn, .recvStart 1, .envEof 1, .writerClose 1,
